@@ -73,6 +73,11 @@ add("C04/cue/reference-resolver-selector",
     "CUE reference whose package part is a selector expression: referenceResolver.PackageForNode asserts .(*ast.Ident)",
     r"frame=internal/simplecue\.\(\*referenceResolver\)\.\w+ msg=interface conversion",
     "byte mutation of testdata/simplecue/time, e.g. thorough seed 1 mut/155321")
+add("C04/cue/library-export-stack-overflow",
+    "CUE field defined through a selector into its own definition (`#A: {x: #A.x}`, then `#a: #A & {x: 1}`): the CUE library's exporter (cue.Value.Syntax, called by simplecue's referenceResolver.buildImportsAliasMap / number constraints) recurses without bound -> fatal stack overflow inside cuelang.org/go; cog does not validate the value (v.Validate / v.Err) before asking for its syntax",
+    r"route=input:cue outcome=crash frame=recursion:lib:cuelang\.org/go/internal/core/export\.\(\*exporter\)\.\w+ msg=fatal error: stack overflow",
+    "./check C04 --replay corpus:corpus/cue-self-referential-field",
+    "candidate: reject values with v.Validate() errors (structural / reference cycles) in simplecue.GenerateAST before walking; third-party recursion cannot be recovered")
 add("C04/python/intersection-not-implemented",
     "OpenAPI / JSON Schema `allOf` with the Python output: formatType panics explicitly `formatting intersection type is not implemented for python` (the repo's own testdata/openapi/intersections and external_refs trigger it)",
     r"frame=internal/jennies/python\.\(\*typeFormatter\)\.formatType msg=formatting intersection type is not implemented",
@@ -118,7 +123,7 @@ add("C04/yaml/implements-variant-not-string",
     "harness c04-run streams=config, e.g. seed 1 config/3437 — Lean witness C04.wVariantHint")
 # fixed in /repo and therefore removed here: openapi/enum-without-type 70c59a6, openapi/array-without-items 4e6f2a6, openapi/unresolved-ref-nil-value ca4fdd6,
 # jsonschema/tuple-items f0d68ac, config/null-list-element 15208a9, config/null-document 4823a7e, yaml/hint-object-nil-map d683cb9, fromast/dangling-alias eed3e31
-doc = {"comment": "PROPOSED known-findings entries of property C04 (to be merged into /verif/known_findings.json by the coordinator). checks/c04.py reads this file, /verif/.work/proposed_findings_C04.json and known_findings.json.", "findings": F}
+doc = {"comment": "PROPOSED known-findings entries of property C04 (to be merged into /verif/known_findings.json by the coordinator). checks/c04.py reads only /verif/known_findings.json.", "findings": F}
 for p in ("/verif/.work/proposed_findings_C04.json",):
     json.dump(doc, open(p, "w"), indent=1)
 print(len(F))
